@@ -6,7 +6,7 @@ use std::cell::{Cell, RefCell};
 thread_local! {
     static FUEL: Cell<u64> = const { Cell::new(u64::MAX) };
     static TRACE_MODE: Cell<u8> = const { Cell::new(0) };
-    static TRACE: RefCell<Vec<[u64; 5]>> = const { RefCell::new(Vec::new()) };
+    static TRACE: RefCell<Vec<[u64; 7]>> = const { RefCell::new(Vec::new()) };
     static ASM: RefCell<Option<Vec<String>>> = const { RefCell::new(None) };
     static REPL_SCRIPTED: Cell<bool> = const { Cell::new(false) };
 }
@@ -22,13 +22,33 @@ pub fn set_trace_mode(m: u8) {
     TRACE.with(|t| t.borrow_mut().clear());
 }
 
-pub fn take_trace() -> Vec<[u64; 5]> {
+pub fn take_trace() -> Vec<[u64; 7]> {
     TRACE.with(|t| std::mem::take(&mut *t.borrow_mut()))
 }
 
+/// A cheap scalar view of a value: (kind, low bits of its scalar content or its length).
+pub fn digest(obj: &crate::object::Object) -> (u64, u64) {
+    use crate::object::Object;
+    match obj {
+        Object::Null => (0, 0),
+        Object::Bool(b) => (1, *b as u64),
+        Object::Integer(n) => (2, (*n as u64) & 0xff_ffff),
+        Object::Byte(b) => (3, *b as u64),
+        Object::Char(c) => (4, *c as u64),
+        Object::Str(s) => (5, (s.chars().count() as u64) & 0xff_ffff),
+        Object::Float(_) => (6, 0),
+        Object::Arr(a) => (7, (a.len() as u64) & 0xff_ffff),
+        Object::Map(m) => (8, (m.len() as u64) & 0xff_ffff),
+        Object::Func(_) | Object::Clos(_) => (9, 0),
+        Object::Builtin(_) => (10, 0),
+        _ => (11, 0),
+    }
+}
+
 /// Called at the top of the VM loop, before the instruction executes.
-/// `func` identifies the compiled function of the current frame.
-pub fn step(frames_index: usize, func: usize, ip: usize, op: u8, sp: usize) {
+/// `func` identifies the compiled function of the current frame, `tos` is the
+/// value on top of the operand stack (null when the stack is empty).
+pub fn step(frames_index: usize, func: usize, ip: usize, op: u8, sp: usize, tos: &crate::object::Object) {
     FUEL.with(|f| {
         let left = f.get();
         if left == 0 {
@@ -44,9 +64,10 @@ pub fn step(frames_index: usize, func: usize, ip: usize, op: u8, sp: usize) {
     if mode == 2 && !matches!(op, 0 | 1 | 15 | 26 | 27 | 28) {
         return;
     }
+    let (tk, tv) = digest(tos);
     TRACE.with(|t| {
         t.borrow_mut()
-            .push([frames_index as u64, func as u64, ip as u64, op as u64, sp as u64])
+            .push([frames_index as u64, func as u64, ip as u64, op as u64, sp as u64, tk, tv])
     });
 }
 
